@@ -463,7 +463,31 @@ class ASfalsy:
     x = attr.ib(default=0, validator=_FalsyValidator())
 
 
-VAL_ONLY = (DFv, DFvl, ASvs, DFd, DFfalsy, ASfalsy)
+@attrs.define
+class DFpriv:
+    """a validated field whose init alias differs from its name: hooks are keyed by NAME"""
+    _p: int = attrs.field(default=0, validator=_rec)
+
+
+@attr.s(on_setattr=setters.validate)
+class ASalias:
+    x = attr.ib(default=0, validator=_rec, alias="other")
+
+
+@attrs.define
+class DFbase0:
+    """no validators here ..."""
+    a: int = 0
+
+
+@attrs.define
+class DFsub0(DFbase0):
+    """... only in the subclass: attr.validate(sub) must not reuse anything computed for the base"""
+    b: int = attrs.field(default=0, validator=_rec)
+
+
+VAL_ONLY = (DFv, DFvl, ASvs, DFd, DFfalsy, ASfalsy, DFpriv, ASalias, DFsub0)
+_ASSIGN_FIELD = {"DFd": "z", "DFpriv": "_p", "DFsub0": "b"}
 
 NONBOOL_POOL = [1, 0, None, "yes", 1.0]
 
@@ -489,9 +513,24 @@ def _probe():
         return (any(e[0] == "v" for e in _log), ("c",) in _log)
 
     init = [fired(lambda k=k: k(1)) for k in (AS, ASv, AScv, DF, DFfield)]
-    init_vo = [fired(lambda k=k: k(1))[0] for k in VAL_ONLY]
-    assign_vo = [fired(lambda i=i: setattr(i, "z" if isinstance(i, DFd) else "x", 2))[0] for i in [k(1) for k in VAL_ONLY]]
-    val_vo = [fired(lambda i=i: attr.validate(i))[0] for i in [k(1) for k in VAL_ONLY]]
+    init_vo = [fired(lambda k=k: k())[0] for k in VAL_ONLY]
+    assign_vo = [fired(lambda i=i: setattr(i, _ASSIGN_FIELD.get(type(i).__name__, "x"), 2))[0] for i in [k() for k in VAL_ONLY]]
+    val_vo = [fired(lambda i=i: attr.validate(i))[0] for i in [k() for k in VAL_ONLY]]
+    # attr.validate() of a subclass instance after its base was validated: every validated field of the subclass,
+    # own and inherited, exactly when enabled
+    attr.validate(DF(1)); attr.validate(DFbase0())
+    fresh = []
+    if _FP_DUE[0]:
+        # subclasses that have never been validated before, below bases that just were
+        fresh = [(attrs.define(type("DFfresh", (DF,), {"__annotations__": {"z": int}, "z": attrs.field(default=0, validator=_rec)}))(1), {"x", "z"}),
+                 (attr.s(type("ASfresh", (DFbase0,), {"b": attr.ib(default=0, validator=_rec)}))(), {"b"})]
+    for inst, want in [(DFd(1), {"x", "z"}), (DFsub0(), {"b"})] + fresh:
+        _log.clear()
+        attr.validate(inst)
+        got = {e[1] for e in _log if e[0] == "v"}
+        if got != (want if gr is True else set()):
+            dis.append("attr.validate(%s instance) ran the validators of %r, expected %r (get_run_validators()=%r)"
+                       % (type(inst).__name__, sorted(got), sorted(want if gr is True else set()), gr))
     # instances for assignment / validate (their construction is not what we observe)
     insts = [k(1) for k in (ASv, AScv, DF, DFfield)]
     assign = [fired(lambda i=i: setattr(i, "x", 2)) for i in insts]
